@@ -59,7 +59,7 @@ Definition check (c : scase) : bool :=
       let x0 := open_all ss in
       let x1 := drain_client (S (length frames))
                   {| cstreams := cstreams x0; sstreams := sstreams x0; sgone := sgone x0; w_c2s := w_c2s x0; w_s2c := w_s2c x0;
-                     sdecq := sdecq x0; sstrq := sstrq x0; cdecq := frames; cstrq := []; unary_done := []; lost := false |} in
+                     sdecq := sdecq x0; sstrq := sstrq x0; cdecq := frames; cstrq := []; unary_done := []; lost := false; torn := false |} in
       forallb (fun r : sid * (list nat * bool) =>
                  let s := fst r in let got := fst (snd r) in let all := snd (snd r) in
                  (if all then list_eqb got (client_events x1 s) else prefix_eqb got (client_events x1 s)) &&
@@ -67,7 +67,7 @@ Definition check (c : scase) : bool :=
   | C2S frames reads =>
       let x1 := drain_server (S (length frames))
                   {| cstreams := []; sstreams := []; sgone := []; w_c2s := []; w_s2c := []; sdecq := frames; sstrq := [];
-                     cdecq := []; cstrq := []; unary_done := []; lost := false |} in
+                     cdecq := []; cstrq := []; unary_done := []; lost := false; torn := false |} in
       forallb (fun r : sid * (list nat * bool) =>
                  let s := fst r in let got := fst (snd r) in let all := snd (snd r) in
                  if all then list_eqb got (server_events x1 s) else prefix_eqb got (server_events x1 s)) reads
